@@ -344,7 +344,7 @@ def c02_rf26(run):
 PLAN = {
     'C03': [c03_rf11],
     'C05': [c05_rf10, c05_rf12],
-    'C06': [c06_rf10, c06_rf11],
+    'C06': [c06_rf10, c06_rf11, c02_rf9],
     'C13': [c13_rf16],
     'C14': [c14_rf16f],
     'C16': [c16_rf16],
